@@ -38,6 +38,8 @@ pub struct Gen {
     /// pending keys of a "chain burst": every ancestor of one full-length key (a path with a node
     /// at every length 0..=W)
     pub burst: Vec<EP>,
+    /// wide types: the full-depth path of the universe (empty: none), see `base::spine`
+    pub spine: Vec<EP>,
 }
 
 impl Gen {
@@ -63,6 +65,7 @@ impl Gen {
             serde_ok: false,
             extra_keys: Vec::new(),
             burst: Vec::new(),
+            spine: Vec::new(),
         }
     }
 
@@ -310,6 +313,17 @@ impl Gen {
         if self.w == 8 && self.uni.len() >= 511 && self.rng.chance(1, 400) {
             let leaf = EP::new(self.rng.u128() & mask(self.w), self.w);
             let mut chain: Vec<EP> = (0..=self.w).map(|l| EP::new(leaf.bits, l).canon()).collect();
+            self.rng.shuffle(&mut chain);
+            self.burst = chain;
+        }
+        if !self.spine.is_empty() && self.rng.chance(1, 70) {
+            // a path with (almost) one node per length of a wide type
+            let mut chain: Vec<EP> = self.spine.clone();
+            if self.rng.chance(1, 2) {
+                let keep = 2 + self.rng.below(3);
+                chain = chain.into_iter().filter(|_| self.rng.below(4) < keep).collect();
+            }
+            chain.retain(|k| !m.contains(*k));
             self.rng.shuffle(&mut chain);
             self.burst = chain;
         }
